@@ -135,8 +135,76 @@ let handle_c17 (toks_ : string list) : string =
         | Done l -> Printf.sprintf "ok %s lens=%d,%d,%d,%d" getters (int_of_nat l.l_dc) (int_of_nat l.l_demod) (int_of_nat l.l_ff) (int_of_nat l.l_fb)))
   | _ -> "DRIVER-ERROR unknown command"
 
+(* ---------------- C11/C12/C19: samedec's control flow over a scripted transducer ---------------- *)
+let hexval c = match c with '0'..'9' -> Char.code c - 48 | 'a'..'f' -> Char.code c - 87 | 'A'..'F' -> Char.code c - 55 | _ -> failwith "bad hex"
+let bytes_of_hex (s : string) : int list =
+  if s = "-" then [] else List.init (String.length s / 2) (fun i -> 16 * hexval s.[2 * i] + hexval s.[2 * i + 1])
+let hex_of_nl (l : n list) : string =
+  if l = [] then "-" else String.concat "" (List.map (fun b -> Printf.sprintf "%02x" (int_of_n b)) l)
+let nl_of_hex s = List.map n_of_int (bytes_of_hex s)
+
+(* a message as samedec prints it: the header text, or NNNN *)
+let message_of_display (hexs : string) : message =
+  let b = nl_of_hex hexs in
+  if hexs = "4e4e4e4e" then EOM
+  else match header_new b with Ok h -> SOM h | Err _ -> failwith "display text is not a header"
+let display_of_message (m : message) : string = hex_of_nl (message_as_str m)
+
+type scripted = { sched : (int * message) list; spos : int; fl : message list }
+
+let rec drop k l = if k <= 0 then l else match l with [] -> [] | _ :: r -> drop (k - 1) r
+
+let sc_next (rx : scripted) (inp : int list) : (message option * scripted) * int list =
+  let n = List.length inp in
+  match rx.sched with
+  | (idx, m) :: rest when idx <= rx.spos + n ->
+    let k = idx - rx.spos in
+    ((Some m, { rx with sched = rest; spos = idx }), drop k inp)
+  | _ -> ((None, { rx with spos = rx.spos + n }), [])
+
+let sc_flush (rx : scripted) : message option * scripted =
+  match rx.fl with
+  | m :: r when rx.sched = [] -> (Some m, { rx with fl = r })
+  | _ -> (None, rx)
+
+let handle_app (toks_ : string list) : string =
+  match toks_ with
+  | [ "apprun"; quiet; has_child; spawn_bits; nsamples; msgs; flushed ] ->
+    let sched = if msgs = "-" then [] else
+        List.map (fun t -> match String.split_on_char '@' t with
+            | [ hx; idx ] -> (int_of_string idx, message_of_display hx)
+            | _ -> failwith "bad msg token") (String.split_on_char ';' msgs) in
+    let fl = if flushed = "-" then [] else List.map message_of_display (String.split_on_char ';' flushed) in
+    let n = int_of_string nsamples in
+    let input = List.init n (fun i -> i) in
+    let spawn_ok (k : nat) : bool =
+      let i = int_of_nat k in
+      if spawn_bits = "-" then true else if i < String.length spawn_bits then spawn_bits.[i] = '1' else true in
+    (match run sc_next sc_flush (nat_of_int 400) (quiet = "1") (has_child = "1") spawn_ok { sched; spos = 0; fl } input with
+     | None -> "out-of-fuel"
+     | Some o ->
+       let so = if o.o_stdout = [] then "-" else String.concat ";" (List.map display_of_message o.o_stdout) in
+       let sp = if o.o_spawns = [] then "-" else String.concat ";" (List.map (fun r ->
+           let h = hex_of_nl r.sp_header.h_text in
+           match r.sp_child with
+           | None -> h ^ ":fail"
+           | Some (p, fed) -> Printf.sprintf "%s:%d:%d" h (int_of_nat p) (List.length fed)) o.o_spawns) in
+       "stdout=" ^ so ^ " spawns=" ^ sp)
+  | [ "childenv"; hdr; rate; year; doy ] ->
+    (match header_new (nl_of_hex hdr) with
+     | Err _ -> "not-a-header"
+     | Ok h ->
+       (match build_env h (nl_of_hex rate) (z_of_int (int_of_string year)) (z_of_int (int_of_string doy)) with
+        | Panic site -> "panic " ^ string_of_int (int_of_n site)
+        | Done e ->
+          String.concat " " (List.map hex_of_nl [ e.env_rate; e.env_msg; e.env_org; e.env_originator; e.env_evt; e.env_event;
+                                                  e.env_significance; e.env_sig_num; e.env_locations; e.env_issuetime;
+                                                  e.env_purgetime; e.env_is_national ])))
+  | _ -> "DRIVER-ERROR unknown command"
+
 let handle (toks_ : string list) : string =
   match toks_ with
   | "resetshape" :: _ -> handle_c18 toks_
   | "cfgcalls" :: _ -> handle_c17 toks_
+  | "apprun" :: _ | "childenv" :: _ -> handle_app toks_
   | _ -> "DRIVER-ERROR unknown command"
